@@ -39,7 +39,8 @@ def run(tier, seed):
     for t, (job, e) in enumerate(zip(emitjobs, emitted)):
         e.update({"t": t, "expects": job["expects"]})
         erecs.append(e)
-    verdicts = GC.judge_emits(chk, erecs)
+    verdicts = GC.judge_emits(chk, erecs, jobs=emitjobs, fallback=(GR.run_div, lambda j: GC.split_patterns(
+        dict(j, prim=True, patterns=list(range(len(j["expects"])))), 96)))
     for t, job in enumerate(emitjobs):
         v = verdicts[t]
         chk.note_case(f"emit/div/{job['id']}", job["R"] >= 2)
